@@ -124,6 +124,8 @@ def check_acl(arg):
     pos, n_before, n_after, grouped = arg
     multi = "permit tcp any eq 1 2 any eq 3 4 log"
     others = ["remark = A", "permit ip any any", "deny udp any any eq 53", "permit tcp any any eq 80"]
+    if pos:          # variant with verbatim repeated lines (they must all survive)
+        others = ["remark ---- ticket", "permit ip any any", "remark ---- ticket", "permit ip any any"]
     lines = others[:n_before] + [multi] + others[n_before:n_before + n_after]
     head = "ip access-list extended X"
     acl = cisco_acl.Acl("\n".join([head] + lines), platform="ios")
@@ -157,7 +159,7 @@ def main(chk):
                     f"{len(PORTSETS)} source x {len(PORTSETS)} destination port expressions (eq/neq with 1..10 operands, gt, range, none) x 2 option sets",
                     viol, time.time() - t0, [list(cases[14])], exhaustive=True)
     t0 = time.time()
-    cases = [(0, a, b, g) for a in range(4) for b in range(4 - a + 1) for g in (False, True)]
+    cases = [(p_, a, b, g) for p_ in (0, 1) for a in range(4) for b in range(4 - a + 1) for g in (False, True)]
     res = pmap(check_acl, cases)
     viol = 0
     for fails, _ in res:
